@@ -140,6 +140,21 @@ def compare(H, H2, fn, fe, kinds):
     I1 = xgi.incidence_matrix(H, sparse=False); I2 = xgi.incidence_matrix(H2, sparse=False)
     if I1.shape != (0, 0) and not np.array_equal(I1, I2[np.ix_(rp, cp)]):
         return f"incidence_matrix is not the row/column permutation after relabelling {kinds}"
+    # the weighted incidence matrix: the callback is documented to receive the node LABEL and the edge ID; a weight that
+    # depends on them (through tables keyed by the original names) must come out permuted like everything else
+    if I1.shape != (0, 0):
+        wn = {n: 1 + (i * 7) % 5 for i, n in enumerate(n1)}; we = {e: 1 + (j * 3) % 4 for j, e in enumerate(e1)}
+        fni = {v: k for k, v in fn.items()}; fei = {v: k for k, v in fe.items()}
+        try:
+            W1 = xgi.incidence_matrix(H, sparse=False, weight=lambda n, e, X: 10 * wn[n] + we[e])
+            W2 = xgi.incidence_matrix(H2, sparse=False, weight=lambda n, e, X: 10 * wn[fni[n]] + we[fei[e]])
+        except Exception as ex:  # noqa: BLE001
+            return f"incidence_matrix(weight=f) raised {type(ex).__name__}: {ex} under relabelling {kinds}"
+        exp = np.array([[10 * wn[n] + we[e] if n in H.edges.members(e) else 0 for e in e1] for n in n1])
+        if not np.array_equal(W1, exp):
+            return f"incidence_matrix(weight=f) does not hold f(node, edge) at the incidences {kinds}"
+        if not np.array_equal(W1, W2[np.ix_(rp, cp)]):
+            return f"incidence_matrix(weight=f) is not the row/column permutation after relabelling {kinds}"
     mats = (("adjacency_matrix", lambda X: xgi.adjacency_matrix(X, sparse=False)),
             ("laplacian", lambda X: xgi.laplacian(X, sparse=False)),
             ("clique_motif_matrix", lambda X: xgi.clique_motif_matrix(X, sparse=False)),
